@@ -206,9 +206,9 @@ def classify(part, case, v):
 
 
 PARTS = [
-    Part("manual", e_manual, s_link(), quick=800, thorough=5000, shards=16, quick_shards=2, rule="manual mid-level decision at the slot centre"),
-    Part("ook_dsp", e_ook, s_link(min_slots=32, max_slots=160, kinds=("random", "prbs7", "prbs9", "prbs11")), quick=60, thorough=300, shards=16, quick_shards=6,
+    Part("manual", e_manual, s_link(), quick=800, thorough=25000, shards=16, quick_shards=2, rule="manual mid-level decision at the slot centre"),
+    Part("ook_dsp", e_ook, s_link(min_slots=32, max_slots=160, kinds=("random", "prbs7", "prbs9", "prbs11")), quick=60, thorough=1500, shards=16, quick_shards=6,
          shrink=False, rule="ook.DSP on >= 32 slots of random/PRBS data"),
-    Part("ppm_dsp", e_ppm, s_ppm(), quick=120, thorough=600, shards=16, quick_shards=4, shrink=False, rule="ppm.DSP soft / hard (estimated threshold)"),
-    Part("counter", e_cnt, s_cnt, quick=300, thorough=2000, shards=2, rule="k flipped bits of n -> k/n exactly"),
+    Part("ppm_dsp", e_ppm, s_ppm(), quick=120, thorough=3000, shards=16, quick_shards=4, shrink=False, rule="ppm.DSP soft / hard (estimated threshold)"),
+    Part("counter", e_cnt, s_cnt, quick=300, thorough=10000, shards=2, rule="k flipped bits of n -> k/n exactly"),
 ]
